@@ -72,7 +72,7 @@ class Gen(types_gen.TypeGen):
         def f(k):
             r = self.rng.random()
             if r < 0.6:
-                return (Q(k), self.rng.choice(self.atoms))            # builtin field types: the class body is self-contained
+                return (Q(k), self.rng.choice(self.atoms))
             if r < 0.75 and depth > 1:
                 return (Q(k), self.td(depth - 1))
             return (Q(k), self.ty(depth - 1) if r < 0.9 else self.leaf())
@@ -105,7 +105,7 @@ def run(pid, tier, seed):
     chk.assumptions = ["names the stub provides = its own import block (really executed) + builtins + the target module's own classes",
                        "that annotation text parses to the expression the model prints is CPython's (ast / eval), observed"]
     chk.partial = ("the expression-level rendering is modelled and compared as text; that evaluating it with the stub's names gives back the type is "
-                   "checked directly on every generated stub, not proved; two open known findings concern generated TypedDict classes")
+                   "checked directly on every generated stub, not proved; two open known findings (generated class-name collision, same class name from two modules)")
     proof = framework.lean_check(pid)
     quick = tier == "quick"
     from monkeytype.stubs import (ReplaceTypedDictsWithStubs, build_module_stubs_from_traces, get_imports_for_annotation,
@@ -156,10 +156,9 @@ def run(pid, tier, seed):
                 hint = hints.get(pos) or (fn.replace(".", "_") + ("Yield" if fn == "g" else ""))
                 inner = raw[1] if (fn == "g" and pos == "return") else raw
                 g = drv.ask(("tdNames", Q(hint), inner))
-                kf.append(([str(x) for x in g[0]], g[2] == "true"))
-            all_names = [n for ns, _ in kf for n in ns]
+                kf.append([str(x) for x in g[0]])
+            all_names = [n for ns in kf for n in ns]
             collision = len(set(all_names)) != len(all_names)
-            needs_name = any(b for _, b in kf)
             clash = drv.ask(("rootClash", Q("target")) + tuple(raws[:2] + [raws[2]] if which != 1 else raws[:2])) == "true"
             try:
                 ev = stubeval.EvaluatedStub(text, own)
@@ -181,8 +180,6 @@ def run(pid, tier, seed):
                 finding = None
                 if collision and e.clause in ("duplicate-class", "denotes"):
                     finding = "KF-C11-td-class-name-collision"
-                elif needs_name and e.clause == "class-body":
-                    finding = "KF-C11-td-field-names"
                 elif clash and e.clause == "denotes":
                     finding = "KF-C11-same-name-two-modules"
                 chk.fail(e.clause, dict(case, detail=e.detail, stub=text[:1200]), finding=finding)
@@ -200,6 +197,11 @@ def run(pid, tier, seed):
                     imp = get_imports_for_annotation(py)
                     meta.append(("corr.C11.imports", dict(case, type=sexp.dumps(raw)), sorted((m, n) for m, ns in imp.items() for n in ns)))
                 else:
+                    # the import block of a stub whose only annotation is this type (fields of generated classes included)
+                    ms = build_module_stubs_from_traces([CallTrace(target.f, {"a": py}, type(None))], k)["target"]
+                    reqs.append(("imports", raw))
+                    meta.append(("corr.C11.stubImports", dict(case, type=sexp.dumps(raw)),
+                                 sorted((m, n) for m, ns in ms.imports_stub.imports.items() for n in ns)))
                     _, stubs = ReplaceTypedDictsWithStubs.rewrite_and_get_stubs(py, "hint_x")
                     reqs.append(("tdNames", Q("hint_x"), raw))
                     meta.append(("corr.C11.tdNames", dict(case, type=sexp.dumps(raw)), [s.name.split("(")[0] for s in stubs]))
@@ -208,6 +210,9 @@ def run(pid, tier, seed):
                 chk.rel(rel, str(g) == impl, dict(case, impl=impl, model=str(g)))
             elif rel == "corr.C11.imports":
                 got = sorted((str(m), str(n)) for m, n in g)
+                chk.rel(rel, got == impl, dict(case, impl=impl, model=got))
+            elif rel == "corr.C11.stubImports":
+                got = sorted({(str(m), str(n)) for m, n in g if str(m) != "target"} | {("mypy_extensions", "TypedDict")})
                 chk.rel(rel, got == impl, dict(case, impl=impl, model=got))
             else:
                 got = [str(x) for x in g[0]]
